@@ -476,6 +476,8 @@ impl ZoneRecords {
         if let Some(other_wildcards) = other.wildcards {
             if let Some(my_wildcards) = self.wildcards.as_mut() {
                 merge_zrs_helper(my_wildcards, other_wildcards);
+            } else {
+                self.wildcards = Some(other_wildcards);
             }
         }
 
